@@ -292,7 +292,12 @@ def translate_validator(tree, name):
     return "Definition v_%s (now : Z) (event : vevent) (config : vconfig) : option pystr :=\n  %s.\n" % (name, body)
 
 
+CURRENT = ["core"]
+EMITTED = {}
+
+
 def emit(path, text):
+    EMITTED.setdefault(CURRENT[0], set()).add(os.path.basename(path))
     if not os.path.exists(path) or open(path).read() != text:
         with open(path, "w") as f:
             f.write(text)
@@ -303,10 +308,10 @@ def target(out, label, fn):
         out.append(fn())
     except Unsupported as e:
         FAILS.append("%s: %s" % (label, e))
-        print("TRANSLATE-FAIL %s: %s" % (label, e))
+        print("TRANSLATE-FAIL [%s] %s: %s" % (CURRENT[0], label, e))
     except (SyntaxError, OSError) as e:
         FAILS.append("%s: %s" % (label, e))
-        print("TRANSLATE-FAIL %s: %s" % (label, e))
+        print("TRANSLATE-FAIL [%s] %s: %s" % (CURRENT[0], label, e))
 
 
 HEADER = "(* Generated by tools/pyfrag.py from %s - do not edit. *)\nFrom NR Require Import Lib.Base Lib.PyRt.\nOpen Scope Z_scope.\n\n"
@@ -324,17 +329,23 @@ def main():
     sys.modules.setdefault("pyfrag", sys.modules[__name__])
     for plug in sorted(glob.glob(os.path.join(here, "pyfrag.d", "*.py"))):
         name = "pyfrag_plugin_" + os.path.basename(plug)[:-3]
+        CURRENT[0] = os.path.basename(plug)[:-3]
+        import re as _re
+        for fn in _re.findall(r'"([A-Za-z0-9_]+\.v)"', open(plug).read()):
+            EMITTED.setdefault(CURRENT[0], set()).add(fn)
         try:
             spec = importlib.util.spec_from_file_location(name, plug)
             mod = importlib.util.module_from_spec(spec)
             spec.loader.exec_module(mod)
             mod.generate(a.repo, a.out)
         except Unsupported as e:
-            print("TRANSLATE-FAIL %s: %s" % (os.path.basename(plug), e))
+            print("TRANSLATE-FAIL [%s] %s: %s" % (CURRENT[0], os.path.basename(plug), e))
             FAILS.append(plug)
         except Exception as e:  # fail closed: a crashing plugin is a broken translation
-            print("TRANSLATE-FAIL %s: %s: %s" % (os.path.basename(plug), type(e).__name__, e))
+            print("TRANSLATE-FAIL [%s] %s: %s: %s" % (CURRENT[0], os.path.basename(plug), type(e).__name__, e))
             FAILS.append(plug)
+    for plug, files in sorted(EMITTED.items()):
+        print("PLUGIN-FILES %s %s" % (plug, " ".join(sorted(files))))
     sys.exit(1 if FAILS else 0)
 
 
